@@ -509,7 +509,12 @@ func c35Step(r *vlib.Run, id string, env *expEnv, par int, files map[string]stri
 				delete(env.Map.Get(), p)
 			}
 		}
-		keys := make([]any, 0, 2*len(touched))
+		keys := make([]any, 0, 2*len(touched)+2)
+		if step%2 == 1 {
+			// a watcher also reports files this executor never compiled; Evict documents that keys that are not
+			// cached are ignored, wherever they stand in the list
+			keys = append(keys, queries.File{Opener: env.Opener, Path: "never/compiled.proto", ReportError: false})
+		}
 		for _, p := range touched {
 			keys = append(keys, queries.File{Opener: env.Opener, Path: p, ReportError: false},
 				queries.File{Opener: env.Opener, Path: p, ReportError: true})
